@@ -1,0 +1,9 @@
+//go:build verif
+
+// Contracts for package keys, used by /verif (govc). Comment-only; compiled only under -tags verif.
+package keys
+
+//@ func FromContext trusted
+//@   assigns nothing
+//@   ensures err == nil ==> result == kcOf(ctx) && result != nil
+//@   ensures err != nil ==> result == nil
